@@ -16,7 +16,7 @@ Not decided: that the pieces are right (token C03, replicas C04, plan C05, shard
 """
 from ..inline import inline_view
 from ..mir import AnchorLost
-from ..util import dj_of, df_of, fn_short, in_set, backward_slice, operand_path, path_last, callers_keys
+from ..util import uses_of_local, dj_of, df_of, fn_short, in_set, backward_slice, operand_path, path_last, callers_keys
 from .c20 import slice_fields
 
 RI = "scylla::policies::load_balancing::RoutingInfo"
@@ -388,9 +388,104 @@ def r8(ctx, facts):
                     if good and n:
                         return True
         return False
+    def _cmp_positive(body, parent_has_get):
+        """does `body` compare a looked-up replication factor (or, in a closure handed such a factor, its parameter) with 0 / 1?"""
+        for bbx in body.live_blocks:
+            for sx in body.stmts(bbx):
+                if not (sx[0] == "A" and sx[2][0] == "bin" and sx[2][1] in ("Gt", "Ne", "Ge", "Lt", "Le", "Eq")):
+                    continue
+                ops = sx[2][2:4]
+                ks = [o for o in ops if o[0] == "k" and o[1] == "int" and int(o[3]) in (0, 1)]
+                vs = [o for o in ops if o[0] in ("c", "m")]
+                if len(ks) != 1 or len(vs) != 1:
+                    continue
+                locs, cs_, _ = backward_slice(body, vs[0])
+                locs = locs | {vs[0][1][0]}
+                if any((c.decl or c.name or "").split("::")[-1] in ("get", "get_key_value") and "HashMap" in (c.decl or c.name or "") for c in cs_):
+                    return True
+                if parent_has_get and any(2 <= l <= body.argc for l in locs) and body.kind == "Closure":
+                    return True
+        return False
+
+    def positive_rf_guard(pick_bb):
+        """the branch that leads to the pick depends on a comparison `rf > 0` of the factor looked up for the node's datacenter -
+        directly, through a helper, or inside the predicate (and its nested closures) of the `find` that selected the node"""
+        for sw in sorted(b.live_blocks):
+            t = b.term(sw)
+            if t[0] != "switch" or t[1][0] not in ("c", "m") or sw == pick_bb or not b.dominates(sw, pick_bb):
+                continue
+            succs = [tg for _, tg in t[2]] + [t[3]]
+            if all(pick_bb in (b.reachable_from(tg, removed_nodes=[sw]) | {tg}) for tg in succs):
+                continue        # not a guard of the pick
+            locs, cs_, _ = backward_slice(b, t[1])
+            locs = locs | {t[1][1][0]}
+            bins_ = [d[3] for l in locs for d in b.defs.get(l, []) if d[0] == "stmt" and d[3][0] == "bin"]
+            # in this body: a comparison in the slice
+            for x in bins_:
+                if x[1] in ("Gt", "Ne", "Ge", "Lt", "Le", "Eq"):
+                    ops = x[2:4]
+                    ks = [o for o in ops if o[0] == "k" and o[1] == "int" and int(o[3]) in (0, 1)]
+                    vs = [o for o in ops if o[0] in ("c", "m")]
+                    if len(ks) == 1 and len(vs) == 1:
+                        _, c2, _ = backward_slice(b, vs[0])
+                        if any((c.decl or c.name or "").split("::")[-1] in ("get", "get_key_value") and "HashMap" in (c.decl or c.name or "") for c in c2):
+                            return True
+            # closures created for the calls in the slice (find / is_some_and predicates), and the closures nested in them
+            work, seen_c = [], set()
+            for l in locs:
+                for d in b.defs.get(l, []):
+                    if d[0] == "stmt" and d[3][0] == "agg" and d[3][1][0] == "closure":
+                        work.append((d[3][1][1], bool(gets)))
+            for c in cs_:
+                for a in c.args:
+                    if a[0] in ("c", "m"):
+                        for l in backward_slice(b, a)[0] | {a[1][0]}:
+                            for d in b.defs.get(l, []):
+                                if d[0] == "stmt" and d[3][0] == "agg" and d[3][1][0] == "closure":
+                                    work.append((d[3][1][1], bool(gets)))
+            def bad_receiver(body, cpath):
+                """is the closure `cpath`, created in `body`, handed to a combinator that answers TRUE for an absent value
+                (`is_none_or`, `map_or(true, ..)`)? Then `rf > 0` inside it does not establish that the datacenter is listed"""
+                for l in range(len(body.locals)):
+                    for d in body.defs.get(l, []):
+                        if d[0] == "stmt" and d[3][0] == "agg" and d[3][1][0] == "closure" and d[3][1][1] == cpath:
+                            holders, wk = {l}, [l]
+                            while wk:
+                                x = wk.pop()
+                                for ubb, kind, op in uses_of_local(body, x):
+                                    if kind[0] == "stmt" and kind[1][2][0] in ("use", "ref") and not kind[1][1][1] and kind[1][1][0] not in holders:
+                                        holders.add(kind[1][1][0])
+                                        wk.append(kind[1][1][0])
+                                    elif kind[0] == "arg":
+                                        t2 = body.term(ubb)
+                                        nm2 = (t2[1].get("def") or "").split("::")[-1]
+                                        if nm2 in ("is_none_or", "map_or_else"):
+                                            return True
+                                        if nm2 == "map_or" and t2[2] and t2[2][1][0] == "k" and str(t2[2][1][3]) in ("1", "true"):
+                                            return True
+                return False
+            work = [(cp, hg) for cp, hg in work if not bad_receiver(b, cp)]
+            while work:
+                cp, has_get = work.pop()
+                if cp in seen_c:
+                    continue
+                seen_c.add(cp)
+                cb = facts.body(cp)
+                if cb is None:
+                    continue
+                own_get = any((c.decl or c.name or "").split("::")[-1] in ("get", "get_key_value") and "HashMap" in (c.decl or c.name or "")
+                              for bbc, c in cb.calls() if bbc in cb.live_blocks)
+                if _cmp_positive(cb, has_get):
+                    return True
+                for bbx in cb.live_blocks:
+                    for sx in cb.stmts(bbx):
+                        if sx[0] == "A" and sx[2][0] == "agg" and sx[2][1][0] == "closure" and not bad_receiver(cb, sx[2][1][1]):
+                            work.append((sx[2][1][1], has_get or own_get))
+        return False
+
     for bb, j, st in picks:
         sts = dj.states_before_stmt(bb, j)
-        ok = (bool(gets) and bool(sts) and all(known_dc(x) for x in sts)) or selected_by_lookup(st)
+        ok = (bool(gets) and bool(sts) and all(known_dc(x) for x in sts)) or selected_by_lookup(st) or positive_rf_guard(bb)
         r.instance("primary-is-in-replicating-dc", ok,
                    "the node recorded as `picked` (and yielded as the primary replica) must come from the region where datacenter_repfactors has an entry for the node's "
                    "datacenter; otherwise the owner of the next vnode - possibly in a datacenter without replicas - is the first target of LWT plans", b.stmt_span(st))
@@ -439,8 +534,8 @@ def r8(ctx, facts):
                     false_tg = edges.get(0, t[3])
                     if bb in (b.reachable_from(true_tg) | {true_tg}) and bb not in (b.reachable_from(false_tg, removed_nodes=[sw]) | {false_tg}):
                         ok = True
-        if not ok and selected_by_lookup(st):
-            ok = True   # judged inside the find() predicate (not re-examined here)
+        if not ok and positive_rf_guard(bb):
+            ok = True
         r.instance("primary-dc-has-a-positive-rf", ok,
                    "the node recorded as `picked` comes from a datacenter that merely has an ENTRY in datacenter_repfactors (%s): with `'dc': 0` the owner of the next "
                    "vnode in that datacenter - which holds no replica - is yielded first and the ordered view has one node more than the replica set" % why, b.stmt_span(st))
